@@ -394,4 +394,25 @@ example : (((Track.new).setOctave 3).addNote 2 24).getEvents = [{ type := 2, par
     (((Track.new).setDrumMode 30).addNote 2 24).getEvents.drop 1 = [{ type := 2, param := 32, on := 24, off := 0 }] := by
   decide +kernel
 
+/-! ## reader layer
+
+The general reader theorems of the design (`getNum_render`, `read_duration_render`,
+`parse_render`) are NOT proved here; `Proofs/Mml` holds the first lemmas (`takeDigits_dec`,
+`countSpaces_dec`, `digitVal_dec`).  The reader is carried by the correspondence check (every
+generated text is parsed by model and code and all events, references, error messages and
+positions are compared) and by the spec oracle (`Spec/MmlMeaning.meaning` of the generated AST
+against the implementation's events).  The statements, for the record: -/
+
+/-- `get_num` on a decimal numeral followed by a non-digit reads its value and stops behind it -/
+def C05_full_statement_getNum_render : Prop :=
+  ∀ (pre ds rest : List Nat), ds ≠ [] → (∀ d ∈ ds, d < 10) → digitsValue 10 ds < 2147483648 →
+    (∀ c, rest.head? = some c → digitVal 10 c = none) →
+    (LineBuffer.getNum { buf := pre ++ decChars ds ++ rest, column := pre.length }) =
+      .ok (some (digitsValue 10 ds : Int), { buf := pre ++ decChars ds ++ rest, column := pre.length + ds.length })
+
+/-- reading the canonical rendering of a command list for track `A` accepts it -/
+def C05_full_statement_parse_render : Prop :=
+  ∀ cmds : List MmlMeaning.Cmd, (MmlMeaning.meaning cmds).exact = true →
+    ∃ st, readLines 0 [strBytes (MmlMeaning.render cmds)] MmlState.init = .ok () st
+
 end Ctrmml.C05
